@@ -98,11 +98,14 @@ func H_C02_roundtrip(t int) {
 	ok, val := refCanon(text, f)
 	vAssert("canonical-numeral", ok && val == uint64(n))
 	vAssert("zero-iff-empty", (n == 0) == (len(text) == 0))
-	back, perr := DefaultParser(text, 0)
-	vAssert("parses-back", perr == nil && back == n)
-	vAssert("valid", Valid(text, 0) == nil)
-	sback, serr := DefaultParser(string(text), 0)
-	vAssert("parses-back-string", serr == nil && sback == n)
+	if len(text) <= MaxInputLength { // the property speaks of numerals that fit within the parser's input limit
+		back, perr := DefaultParser(text, 0)
+		vAssert("parses-back", perr == nil && back == n)
+		vAssert("valid", Valid(text, 0) == nil)
+		sback, serr := DefaultParser(string(text), 0)
+		vAssert("parses-back-string", serr == nil && sback == n)
+		vReach("fits-the-input-limit", true)
+	}
 	vReach("lower-long", f&FormatLowerCase != 0 && f&FormatLong4 != 0 && uint64(n)%10 == 4)
 	vReach("nine-hundred", uint64(n)%1000 >= 900)
 }
